@@ -516,12 +516,17 @@ fn case_h1_h2c(ctx: &mut Ctx, rng: &mut Rng, req_len: usize, plan: H2Plan, slow:
         let mut local: Vec<Fail> = vec![];
         let (case, rep) = case_h1_h2c_once(ctx, rng, req_len, plan.clone(), slow, &mut local, dist, tag);
         let is_503 = local.iter().any(|f| f.detail.contains("503 Service Unavailable")) && rep.bodies.values().all(|b| b.is_empty());
-        if is_503 && attempt < 3 {
+        if is_503 {
             *dist.entry("h2c-fresh-connection-503".into()).or_insert(0) += 1;
             if !fails.iter().any(|f| f.class == "h1-h2c-fresh-backend-connection-503") {
                 fails.push(Fail { class: "h1-h2c-fresh-backend-connection-503".into(), detail: "503 although the h2c backend is up and answers its SETTINGS; no request frame was sent to it".into(), case: case.clone() });
             }
-            continue;
+            if attempt < 3 {
+                continue;
+            }
+            // four 503s in a row: still the same phenomenon, nothing else to judge in this case
+            *dist.entry("h2c-fresh-connection-503-persistent".into()).or_insert(0) += 1;
+            return (case, rep);
         }
         fails.extend(local);
         return (case, rep);
@@ -578,7 +583,18 @@ fn case_h1_h2c_once(ctx: &mut Ctx, rng: &mut Rng, req_len: usize, plan: H2Plan, 
                     let got = c.received.len() - head_end;
                     let sent_all = rep.error.is_none();
                     let timed_out = format!("{e:?}").contains("Timeout");
-                    let class = if got_req == body && sent_all && timed_out { "h1-h2c-response-stalled" } else { "h1-h2c-transfer-failed" };
+                    let es = format!("{e:?}");
+                    let cut = es.contains("Closed after") || es.contains("502 Bad Gateway");
+                    // truncated: sozu closes the client connection (or splices a 502 into the body) although the
+                    // backend sent the complete, well-formed response; seen with very large backend initial
+                    // windows (>= 2^30), explored in the thorough tier only
+                    let class = if got_req == body && sent_all && timed_out {
+                        "h1-h2c-response-stalled"
+                    } else if got_req == body && sent_all && cut {
+                        "h1-h2c-response-truncated"
+                    } else {
+                        "h1-h2c-transfer-failed"
+                    };
                     fails.push(Fail { class: class.into(), detail: format!("client read: {e:?}; {got} response body bytes at the client of {} the backend sent completely={sent_all}; request body complete at backend={}", resp_want.len(), got_req == body), case: case.clone() });
                 }
             }
@@ -588,6 +604,216 @@ fn case_h1_h2c_once(ctx: &mut Ctx, rng: &mut Rng, req_len: usize, plan: H2Plan, 
     }
     c.close();
     (case, rep)
+}
+
+// ------------------------------------------------- TLS HTTP/2 client (thorough) --
+
+struct TlsCtx {
+    front: std::net::SocketAddr,
+    n: usize,
+}
+
+fn new_tls_listener(ctx: &mut Ctx) -> Result<TlsCtx, String> {
+    let front = ctx.w.add_https_listener().map_err(|e| format!("https listener: {e:?}"))?;
+    ctx.w
+        .add_certificate(front, asset("local-certificate.pem").map_err(|e| format!("{e:?}"))?, asset("local-key.pem").map_err(|e| format!("{e:?}"))?, vec![])
+        .map_err(|e| format!("certificate: {e:?}"))?;
+    Ok(TlsCtx { front, n: 0 })
+}
+
+/// HTTP/2-over-TLS client -> sozu -> HTTP/1.1 backend. The client keeps the ledger of the windows
+/// it advertised (initial window `iw`, refilled only when used up if `stingy`).
+#[allow(clippy::too_many_arguments)]
+fn case_h2_h1(ctx: &mut Ctx, tls: &mut TlsCtx, rng: &mut Rng, req_len: usize, resp_len: usize, iw: u32, stingy: bool, fails: &mut Vec<Fail>, dist: &mut BTreeMap<String, u64>) -> String {
+    use std::io::{Read, Write};
+    tls.n += 1;
+    let path = format!("/t{}", tls.n);
+    let cid = format!("t{}", tls.n);
+    let be = MockBackend::listen().unwrap();
+    ctx.w.add_cluster(cluster(&cid)).unwrap();
+    ctx.w.add_https_frontend(tls.front, "localhost", &path, &cid).unwrap();
+    ctx.w.add_backend(&cid, &format!("{cid}-0"), be.addr).unwrap();
+    let body = pattern(rng.below(200) as usize, req_len);
+    let resp_body = pattern(rng.below(200) as usize, resp_len);
+    let resp_chunked = rng.chance(1, 2);
+    let case = format!("h2tls-h1 path={path} req={req_len} resp={resp_len} resp_chunked={resp_chunked} client_init_window={iw} stingy={stingy}");
+    *dist.entry("pair:h2tls-h1".into()).or_insert(0) += 1;
+    let resp_b = resp_body.clone();
+    let bt = std::thread::spawn(move || -> Result<Vec<u8>, String> {
+        let mut b = be.accept(T).map_err(|e| format!("accept {e:?}"))?;
+        let req = read_http_message(&mut b, Duration::from_secs(8)).map_err(|e| format!("backend read: {e:?}"))?;
+        let mut out = b"HTTP/1.1 200 OK\r\n".to_vec();
+        if resp_chunked {
+            out.extend_from_slice(b"Transfer-Encoding: chunked\r\n\r\n");
+            for ch in resp_b.chunks(5000) {
+                out.extend_from_slice(format!("{:x}\r\n", ch.len()).as_bytes());
+                out.extend_from_slice(ch);
+                out.extend_from_slice(b"\r\n");
+            }
+            out.extend_from_slice(b"0\r\n\r\n");
+        } else {
+            out.extend_from_slice(format!("Content-Length: {}\r\n\r\n", resp_b.len()).as_bytes());
+            out.extend_from_slice(&resp_b);
+        }
+        b.write_all(&out, Duration::from_secs(8)).map_err(|e| format!("backend write: {e:?}"))?;
+        let _ = b.read_until_closed_or(Duration::from_millis(300));
+        Ok(req.body)
+    });
+    let mut st = match tls_connect(tls.front, "localhost", &["h2"], Duration::from_millis(100)) {
+        Ok(s) => s,
+        Err(e) => {
+            fails.push(Fail { class: "h2tls-h1-transfer-failed".into(), detail: format!("tls connect: {e:?}"), case: case.clone() });
+            return case;
+        }
+    };
+    let mut hello = b"PRI * HTTP/2.0\r\n\r\nSM\r\n\r\n".to_vec();
+    let mut settings = vec![];
+    settings.extend_from_slice(&4u16.to_be_bytes());
+    settings.extend_from_slice(&iw.to_be_bytes());
+    hello.extend_from_slice(&frame(4, 0, 0, &settings));
+    let mut enc = loona_hpack::Encoder::new();
+    let cl = req_len.to_string();
+    let hs: Vec<(&[u8], &[u8])> = vec![(b":method", b"POST"), (b":scheme", b"https"), (b":path", path.as_bytes()), (b":authority", b"localhost"), (b"content-length", cl.as_bytes())];
+    let block = enc.encode(hs);
+    hello.extend_from_slice(&frame(1, 4 | if req_len == 0 { 1 } else { 0 }, 1, &block));
+    let mut err: Option<String> = st.write_all(&hello).and_then(|_| st.flush()).err().map(|e| format!("write hello: {e}"));
+    // what sozu lets us send / what we let sozu send
+    let (mut peer_init, mut send_conn, mut send_stream): (i64, i64, i64) = (65535, 65535, 65535);
+    let (mut recv_stream, mut recv_conn): (i64, i64) = (iw as i64, 65535);
+    let mut off = 0usize;
+    let mut rx: Vec<u8> = vec![];
+    let mut pos = 0usize;
+    let mut got: Vec<u8> = vec![];
+    let mut end_streams = 0;
+    let mut status_seen = false;
+    let mut violations: Vec<(String, String)> = vec![];
+    let deadline = Instant::now() + Duration::from_secs(8);
+    while err.is_none() && end_streams == 0 && Instant::now() < deadline {
+        // send request body inside sozu's windows
+        while off < body.len() {
+            let room = send_stream.min(send_conn).min(16384);
+            if room <= 0 {
+                break;
+            }
+            let n = (room as usize).min(body.len() - off);
+            let last = off + n == body.len();
+            if let Err(e) = st.write_all(&frame(0, last as u8, 1, &body[off..off + n])).and_then(|_| st.flush()) {
+                if e.kind() == std::io::ErrorKind::WouldBlock || e.kind() == std::io::ErrorKind::TimedOut {
+                    // the frame may be partially buffered by rustls: keep flushing
+                    let _ = st.flush();
+                } else {
+                    err = Some(format!("write DATA at {off}: {e}"));
+                    break;
+                }
+            }
+            off += n;
+            send_stream -= n as i64;
+            send_conn -= n as i64;
+        }
+        let mut buf = [0u8; 16384];
+        match st.read(&mut buf) {
+            Ok(0) => {
+                err = Some("connection closed by sozu".into());
+            }
+            Ok(n) => rx.extend_from_slice(&buf[..n]),
+            Err(e) if e.kind() == std::io::ErrorKind::WouldBlock || e.kind() == std::io::ErrorKind::TimedOut => {}
+            Err(e) => err = Some(format!("read: {e}")),
+        }
+        while rx.len() - pos >= 9 {
+            let h = &rx[pos..pos + 9];
+            let len = ((h[0] as usize) << 16) | ((h[1] as usize) << 8) | h[2] as usize;
+            let (ty, fl) = (h[3], h[4]);
+            let sid = u32::from_be_bytes([h[5], h[6], h[7], h[8]]) & 0x7fff_ffff;
+            if rx.len() - pos - 9 < len {
+                break;
+            }
+            let payload = rx[pos + 9..pos + 9 + len].to_vec();
+            pos += 9 + len;
+            if len > 16384 {
+                violations.push(("h2-front-frame-exceeds-max-frame-size".into(), format!("type {ty} length {len}")));
+            }
+            let mut out = vec![];
+            match ty {
+                4 if fl & 1 == 0 => {
+                    for e in payload.chunks(6) {
+                        if e.len() == 6 && u16::from_be_bytes([e[0], e[1]]) == 4 {
+                            let v = u32::from_be_bytes([e[2], e[3], e[4], e[5]]) as i64;
+                            send_stream += v - peer_init;
+                            peer_init = v;
+                        }
+                    }
+                    out.extend_from_slice(&frame(4, 1, 0, &[]));
+                }
+                8 => {
+                    let inc = (u32::from_be_bytes([payload[0], payload[1], payload[2], payload[3]]) & 0x7fff_ffff) as i64;
+                    if sid == 0 {
+                        send_conn += inc;
+                    } else {
+                        send_stream += inc;
+                    }
+                }
+                6 if fl & 1 == 0 => out.extend_from_slice(&frame(6, 1, 0, &payload)),
+                1 => {
+                    status_seen = true;
+                    if fl & 1 != 0 {
+                        end_streams += 1;
+                    }
+                }
+                0 => {
+                    let n = len as i64;
+                    recv_stream -= n;
+                    recv_conn -= n;
+                    if recv_stream < 0 && n > 0 {
+                        violations.push(("h2-front-stream-window-exceeded".into(), format!("DATA of {n} bytes leaves the client's stream window at {recv_stream} (initial {iw})")));
+                    }
+                    if recv_conn < 0 && n > 0 {
+                        violations.push(("h2-front-connection-window-exceeded".into(), format!("DATA of {n} bytes leaves the client's connection window at {recv_conn}")));
+                    }
+                    got.extend_from_slice(&payload);
+                    if fl & 1 != 0 {
+                        end_streams += 1;
+                    } else {
+                        let refill = if stingy { recv_stream <= 0 } else { recv_stream <= iw as i64 / 2 };
+                        if refill {
+                            let grant = (iw as i64 - recv_stream).clamp(1, 0x7fff_ffff);
+                            recv_stream += grant;
+                            out.extend_from_slice(&frame(8, 0, 1, &(grant as u32).to_be_bytes()));
+                        }
+                        if recv_conn <= 32768 {
+                            recv_conn += 1 << 20;
+                            out.extend_from_slice(&frame(8, 0, 0, &(1u32 << 20).to_be_bytes()));
+                        }
+                    }
+                }
+                3 => err = Some(format!("RST_STREAM {:?}", payload)),
+                7 => err = Some(format!("GOAWAY {:?}", &payload[4..8.min(payload.len())])),
+                _ => {}
+            }
+            if !out.is_empty() {
+                let _ = st.write_all(&out).and_then(|_| st.flush());
+            }
+        }
+    }
+    let back = bt.join().unwrap_or(Err("backend thread".into()));
+    let mut seen: Vec<&String> = vec![];
+    for (c, d) in &violations {
+        if !seen.contains(&c) {
+            seen.push(c);
+            fails.push(Fail { class: c.clone(), detail: d.clone(), case: case.clone() });
+        }
+    }
+    if let Some(e) = err {
+        fails.push(Fail { class: "h2tls-h1-transfer-failed".into(), detail: format!("{e}; {} response bytes, status seen {status_seen}", got.len()), case: case.clone() });
+    } else if end_streams == 0 {
+        fails.push(Fail { class: "h2tls-h1-response-stalled".into(), detail: format!("{} of {} response body bytes, request sent {off}/{}", got.len(), resp_body.len(), body.len()), case: case.clone() });
+    } else {
+        cmp_body("response body at the TLS h2 client", &got, &resp_body, "h2tls-h1-response-body-differs", &case, fails);
+        match back {
+            Ok(b) => cmp_body("request body at the h1 backend", &b, &body, "h2tls-h1-request-body-differs", &case, fails),
+            Err(e) => fails.push(Fail { class: "h2tls-h1-transfer-failed".into(), detail: e, case: case.clone() }),
+        }
+    }
+    case
 }
 
 fn main() {
@@ -639,6 +865,8 @@ fn main() {
         let plan = H2Plan { init_window: Some(iw), conn_bump: 1, stingy: false, drip: 100, read_max: 1 << 16, read_pause: Duration::ZERO, resp_body: pattern(3, 65535), resp_content_length: true };
         let (case, rep) = case_h1_h2c(&mut ctx, &mut rng, req, plan, false, &mut fails, &mut dist, "debug");
         eprintln!("rst={:?} goaway={:?}", rep.rst, rep.goaway);
+        std::thread::sleep(Duration::from_millis(50));
+        ctx.w.stop();
         eprintln!("{case} frames={} err={:?}", rep.frames, rep.error);
         finish(&args, 1, &dist, &samples, &fails, &known_witnesses, t0);
         return;
@@ -667,6 +895,7 @@ fn main() {
     }
 
     // ---- exploration ----
+    let mut tls: Option<TlsCtx> = None;
     let mut i = 0u64;
     while t0.elapsed() < budget && std::env::var("E2E_ONLY_WITNESSES").is_err() {
         i += 1;
@@ -675,6 +904,7 @@ fn main() {
                 fails.push(Fail { class: "worker-died".into(), detail: format!("{:?}", ctx.w.exit_state()), case: format!("before case {i}") });
             }
             ctx.w.stop();
+            tls = None;
             ctx = match new_ctx() {
                 Ok(c) => c,
                 Err(e) => {
@@ -684,6 +914,26 @@ fn main() {
             };
         }
         evaluations += 1;
+        if thorough && rng.chance(1, 4) {
+            if tls.is_none() {
+                tls = new_tls_listener(&mut ctx).ok();
+            }
+            if let Some(t) = tls.as_mut() {
+                let iw = *rng.pick(&[1u32, 1000, 16384, 65535, 1 << 20, 0x7fff_ffff]);
+                let (rq, mut rs) = (*rng.pick(&sizes), *rng.pick(&sizes));
+                if iw == 1 {
+                    // a 1-byte drip over a large body is what the flood / stall-budget defences cut off
+                    // (C15): keep the drip to bodies it can finish
+                    rs = rs.min(100);
+                }
+                let stingy = rng.chance(1, 2);
+                let case = case_h2_h1(&mut ctx, t, &mut rng, rq, rs, iw, stingy, &mut fails, &mut dist);
+                if samples.len() < 8 {
+                    samples.push(json!({"case": case}));
+                }
+                continue;
+            }
+        }
         // under C14 only the h2c pairs matter (peer limits, transfers keep moving)
         if args.prop != "C14" && rng.chance(1, 2) {
             let case = case_h1_h1(&mut ctx, &mut rng, &sizes, &mut fails, &mut dist);
@@ -698,7 +948,7 @@ fn main() {
                 0 => None,
                 1 => Some(65535),
                 2 => Some(1 << 20),
-                3 => Some(0x7fff_fffe),
+                3 => Some(if thorough { *rng.pick(&[0x7fff_fffeu32, 1 << 30]) } else { 1 << 24 }),
                 4 => Some(rng.range(2, 4000) as u32),
                 _ => Some(16384 + rng.range(0, 100000) as u32),
             };
@@ -718,7 +968,7 @@ fn main() {
                 samples.push(json!({"case": case, "frames": rep.frames}));
             }
         }
-        if fails.len() > 60 {
+        if fails.len() > if thorough { 600 } else { 60 } {
             break;
         }
     }
@@ -736,10 +986,10 @@ fn finish(args: &verif_harness::Args, evaluations: u64, dist: &BTreeMap<String, 
     // C14 reports the peer-limit and liveness classes; byte-exactness classes belong to C01
     let relevant = |class: &str| {
         if args.prop == "C14" {
-            class.starts_with("h2c-") || class.starts_with("h1-h2c-") || class == "worker-died" || class == "rig-setup"
+            class.starts_with("h2c-") || class.starts_with("h2-front-") || class.starts_with("h2tls-h1-response-stalled") || class.starts_with("h1-h2c-") || class == "worker-died" || class == "rig-setup"
         } else {
             // C01: the h2c peer-limit ledger classes are C14's
-            !class.starts_with("h2c-")
+            !class.starts_with("h2c-") && !class.starts_with("h2-front-")
         }
     };
     for f in fails.iter().filter(|f| relevant(&f.class)) {
